@@ -614,6 +614,8 @@ def main():
                     det = ol[i + 1].strip()[8:] if i + 1 < len(ol) and ol[i + 1].startswith("  detail") else "(no detail)"
                     violations.append({"msg": det, "replay": m.group(2)})
         kind = "crash"
+        if r["rc"] == 86 and "FATAL hang" in text:
+            kind = "hang"
         if "AddressSanitizer" in text or "LeakSanitizer" in text or "MemorySanitizer" in text or "ThreadSanitizer" in text:
             kind = "sanitizer"
         elif "Undefined Behavior" in text or "error: unsupported operation" in text or "memory leaked" in text:
